@@ -23,6 +23,7 @@ DIMS = {
     "s": ("Single", ["only"], "str"),
     "n": ("Number", [7, 9], None),
     "m": ("Cohort", ["pre", 1990, 1995], None),          # text and numbers in one (untyped) dimension
+    "z": ("Age", [0, 1, 2], "int"),           # items that look like the default row labels 0, 1, 2, ...
     "o": ("Origin", ["r0", "r1"], None), "d": ("Destination", ["r0", "r1"], None),       # two dimensions over the SAME items
 }
 
